@@ -7,7 +7,7 @@ CONSTANTS
  HashId = TRUE
  DedupMode = "peer+id"
  AllowRelay = TRUE
- MCCfgs <- Cfg34
+ MCCfgs <- Cfg3
  Bodies = {x}
  MaxFSig = 3
  MaxB = 1
